@@ -154,3 +154,75 @@ class ModifyContract(Contract):
         ex.writes.add("Aggregated.terms")
         ex.modify_calls.append((recv.r, dx, ir, dict(p.heap)))
         return None
+
+
+# ---------------------------------------------------------------------------------------------------- rule-level contracts
+TArr = z3.ArraySort(Ref, SeqAct)
+VArr = z3.ArraySort(Ref, XR)
+# value of an antecedent given the connective operators, the fuzzy outputs accumulated so far and the variables' current values
+sem_fn = z3.Function("sem_fn", Ref, Ref, Ref, TArr, VArr, XR)
+
+
+def loaded(H, rule):
+    """Rule.is_loaded(): the antecedent has an expression and the consequent has conclusions"""
+    return z3.And(H["Antecedent.expression"][H["Rule.antecedent"][rule]] != NONE,
+                  z3.Length(H["Consequent.conclusions"][H["Rule.consequent"][rule]]) > 0)
+
+
+def fire(H, rule, conj, disj, T=None):
+    """weight x antecedent value (Appendix A.4 `fire`), as a canonical XR"""
+    s_ = sem_fn(H["Rule.antecedent"][rule], conj, disj, T if T is not None else H["Aggregated.terms"], H["Variable._value"])
+    return x2xr(xr.mul(xr2x(H["Rule.weight"][rule]), xr2x(s_)))
+
+
+def _ref(v):
+    return NONE if v is None else v.r
+
+
+class ActivateWithContract(Contract):
+    """rule.Rule.activate_with(conjunction, disjunction): requires a loaded rule; stores and returns weight x antecedent value;
+    writes only this rule's activation_degree (proved against the real body in C06)."""
+    modifies = ("Rule.activation_degree",)
+
+    def call(s, ex, p, recv, args, kwargs, node):
+        ex.oblige(f"call.pre/line{node.lineno - ex.fn_line}:Rule.activate_with requires a loaded rule", p, loaded(p.heap, recv.r))
+        conj, disj = _ref(args[0]), _ref(args[1])
+        for t in (p.heap["Rule.weight"][recv.r],):
+            p.pc.append(canon(t))
+        st = sem_fn(p.heap["Rule.antecedent"][recv.r], conj, disj, p.heap["Aggregated.terms"], p.heap["Variable._value"])
+        p.pc.append(canon(st))
+        d = fire(p.heap, recv.r, conj, disj)
+        p.heap["Rule.activation_degree"] = z3.Store(p.heap["Rule.activation_degree"], recv.r, d)
+        ex.writes.add("Rule.activation_degree")
+        return Num(xr2x(d), True, False)
+
+
+class TriggerContract(Contract):
+    """rule.Rule.trigger(implication): requires a loaded rule; an enabled rule appends contributions(consequent, its activation
+    degree, implication) to every output variable and is marked triggered iff the degree is positive; a disabled rule adds
+    nothing (proved against the real body in C07)."""
+    modifies = ("Rule.triggered", "Aggregated.terms")
+
+    def call(s, ex, p, recv, args, kwargs, node):
+        H = p.heap
+        ex.oblige(f"call.pre/line{node.lineno - ex.fn_line}:Rule.trigger requires a loaded rule", p, loaded(H, recv.r))
+        impl = _ref(args[0])
+        r = recv.r
+        d = H["Rule.activation_degree"][r]
+        p.pc.append(canon(d))
+        en = H["Rule.enabled"][r]
+        cons = H["Rule.consequent"][r]
+        n = z3.Length(H["Consequent.conclusions"][cons])
+        T = H["Aggregated.terms"]
+        T2 = z3.FreshConst(T.sort(), "Aggregated.terms@trigger")
+        for v in ex.witness.get("vars", []):
+            fz = H["OutputVariable.fuzzy"][v]
+            p.pc.append(T2[fz] == z3.If(en, z3.Concat(T[fz], contrib(cons, d, impl, v, n)), T[fz]))
+        for o in ex.witness.get("objs", []):
+            p.pc.append(T2[o] == T[o])
+        p.pc.append(z3.Implies(z3.Not(en), T2 == T))
+        p.heap["Aggregated.terms"] = T2
+        p.heap["Rule.triggered"] = z3.Store(H["Rule.triggered"], r, z3.And(en, xr.gt(xr2x(d), xr.const(0.0))))
+        ex.writes |= {"Aggregated.terms", "Rule.triggered"}
+        ex.trigger_calls.append((r, d, impl))
+        return None
